@@ -67,6 +67,8 @@ def _composites() -> typing.List[Entry]:
         ("InE", "@sealed\n", "empty sealed"),
         ("C_nest", "uint3 pre\nIn1.1.0 n\nuint8 z\n@sealed\n", "nested sealed composite after unaligned field (alignment padding)"),
         ("C_nestv", "In2.1.0 n\nuint8 z\n@sealed\n", "nested variable-size sealed composite"),
+        ("C_nest2", "uint3 a\nuint16 b\nIn1.1.0 n\nuint8 z\n@sealed\n", "composite after a whole-byte-long field that starts mid-byte (padding needed although the previous field is a byte multiple)"),
+        ("C_arrc2", "uint4 a\nuint8 b\nIn1.1.0[2] arr\n@sealed\n", "array of composites after a whole-byte-long field that starts mid-byte"),
         ("C_delim", "uint8 pre\nInD.1.0 d\nuint8 z\n@sealed\n", "nested delimited composite (delimiter header)"),
         ("C_arrc", "In1.1.0[2] a\n@sealed\n", "fixed array of composites"),
         ("C_arrcv", "In2.1.0[<=2] a\n@sealed\n", "variable array of variable composites"),
@@ -88,6 +90,7 @@ def _unions() -> typing.List[Entry]:
         ("U_in", "uint4 pre\nU_prim.1.0 u\nuint8 z\n@sealed\n", "union nested in a struct after unaligned field"),
         ("U_arrof", "U_prim.1.0[<=2] us\n@sealed\n", "variable array of unions"),
         ("U_delim", "@union\nuint8 a\nuint16 b\n@extent 8 * 8\n", "delimited union at top level"),
+        ("U_pv", "@union\nuint8 p\nuint8[<=2] v\nIn2.1.0 c\n@sealed\n", "union with a primitive option declared BEFORE a variable-array and a composite option"),
     ]
 
 
